@@ -159,7 +159,8 @@ def real_jax(c):
             # genuinely non-linear, globally invertible model (t' ∈ (1, 1.25]): the geoVI sample x* must solve
             # x − e + L_e(t(x) − t(e)) = ± metric sample   (the quadratic model is not injective: no such guarantee)
             mk = dict(name=None, xtol=1e-13, absdelta=1e-15, maxiter=60, cg_kwargs=dict(name=None, **CG_KW))
-            upd, _ = ovi.nonlinearly_update_samples(smp, point_estimates=pe, minimize_kwargs=mk)
+            upd, ust = ovi.nonlinearly_update_samples(smp, point_estimates=pe, minimize_kwargs=mk)
+            out["geovi_converged"] = bool(np.all(np.asarray(ust.status) >= 0)) if getattr(ust, "status", None) is not None else True
             gs, mss = [], []
             for i in range(len(upd)):
                 x = p + jax.tree_util.tree_map(lambda a: a[i], upd._samples)
@@ -324,7 +325,7 @@ def oracle(case):
         return (f"point-estimated key {case['pe']} has non-zero residuals", dict(sig, what="point_estimate"))
     if not np.max(np.abs(full.mean(axis=0) - pos)) <= 1e-12 * max(1.0, np.max(np.abs(full))):
         return ("the average of the mirrored samples is not the expansion point", dict(sig, what="mean"))
-    if "geovi_g" in r:
+    if "geovi_g" in r and r.get("geovi_converged", True):
         g, ms = r["geovi_g"][:, keep], r["geovi_ms"][:, keep]
         if not np.max(np.abs(g - ms)) <= 1e-6 * max(1.0, np.max(np.abs(ms))):
             return (f"non-linear model: the geoVI samples do not solve x − e + L_e(t(x) − t(e)) = metric sample "
